@@ -26,14 +26,14 @@ def mc_cfg(R, W, K, variant="spec", faults='{"none", "badArgs", "jsonFail", "svg
             % (R, W, K, M, variant, faults, "PROPERTIES Terminates\n" if live else ""))
 
 
-def model_check(tier):
+def model_check(tier, pid="pipe"):
     th = tier == "thorough"
     # (R, W, K, M): M = 2 or 3 makes replicas tie
     runs = [(3, 2, 1, 7), (0, 2, 1, 7), (2, 2, 2, 7), (4, 2, 1, 3), (3, 2, 1, 2)] + ([(4, 3, 1, 7), (3, 3, 2, 5), (5, 2, 1, 3)] if th else [])
     jobs = []
     for (R, W, K, M) in runs:
         def job(R=R, W=W, K=K, M=M):
-            return (R, W, K), vp.run_tlc("Pipeline", mc_cfg(R, W, K, M=M), "pipe_mc_%d_%d_%d_%d" % (R, W, K, M), workers=4,
+            return (R, W, K), vp.run_tlc("Pipeline", mc_cfg(R, W, K, M=M), "%s_pipe_mc_%d_%d_%d_%d" % (pid, R, W, K, M), workers=4,
                                          timeout=3000, xmx="6g", deque=False)
         jobs.append(job)
     return vp.parallel(jobs, n=4)
@@ -96,11 +96,11 @@ def run_cli(binary, rec, cfg, group, shape_args, potential, reps, threads, extra
                         "inputUnchanged": True, "stderr_tail": stderr_text[-300:]})
 
 
-def observe(tier, seed, want_cli=True, want_pool=True, cli_focus="all"):
+def observe(tier, seed, want_cli=True, want_pool=True, cli_focus="all", pid="pipe"):
     """Run the drivers; return (records, stats)."""
     th = tier == "thorough"
     rec = Recorder()
-    work = os.path.join(vp.WORK, "pipe_obs")
+    work = os.path.join(vp.WORK, pid + "_pipe_obs")   # one directory per check: checks may run side by side
     os.makedirs(work, exist_ok=True)
     stats = {"cli_invocations": 0, "pool_invocations": 0}
     if want_pool:
@@ -289,7 +289,7 @@ def describe_failure(records, path, depth):
 
 def cli_failures(pid, tier, seed, want_cli=True, want_pool=True):
     """Observe, judge with TLC. Returns dict(failures, stats, tlc)."""
-    records, stats = observe(tier, seed, want_cli, want_pool)
+    records, stats = observe(tier, seed, want_cli, want_pool, pid=pid)
     r, path, n = judge(pid, records, pid + "_pipe")
     res = {"failures": [], "stats": stats, "tlc": r, "events": n, "path": path, "error": None}
     if r["violations"]:
@@ -318,7 +318,7 @@ def run_check(ctx):
             print("VIOLATION property=%s replay=%s" % (pid, ctx["replay"]))
             return 1
         return 0
-    mcs = model_check(tier)
+    mcs = model_check(tier, pid)
     states = transitions = 0
     mc_summary = []
     for (R, W, K), r in mcs:
